@@ -99,6 +99,43 @@ CONSTRUCT_DOCS = [
 ]
 
 
+# documents with declarations in scope of several elements, and with white space of other scripts in text and attribute values
+SPECIAL_DOCS = [
+    "<r xmlns:p='urn:u1'><i>  10\u00a0000  </i><p:i a='\u00a0x y\u2003' xmlns:q='urn:u2'>\u3000\u5168\u89d2\u3000<q:k/></p:i><b><i> a  b </i><b p:z='\u2009'/></b></r>",
+    "<r><a x=' 1\u00a02 '>t\u2028u<a xmlns:p='urn:u1'><a x='3'/>\u0085 v\u00a0</a></a><b xmlns:p='urn:u1'><p:c/><c>\u1680w\u1680</c></b></r>",
+]
+
+
+def special_stream():
+    ex = []
+    for start in ("//*", "/r/*", "/descendant::*", "//i", "//a", "/r//*[1]", "/descendant-or-self::node()", "//b/*"):
+        for ns in ("namespace::*", "namespace::xml", "namespace::p", "namespace::q", "namespace::node()"):
+            for tail in ("..", "parent::*", "parent::node()/@*", "../..", "ancestor::*", "ancestor-or-self::node()", "self::node()/..",
+                         "../*", "../text()", "parent::*[1]", "../namespace::*/..", "..//*"):
+                ex.append("%s/%s/%s" % (start, ns, tail))
+            ex.append("%s[%s/..]" % (start, ns))
+            ex.append("(%s/%s)[1]/.." % (start, ns))
+    sets = ["//i", "//i[1]", "//p:i", "//@a", "//@x", "//@p:z", "//c", ".", "/", "//a[2]", "//text()[2]", "(//text())[last()]", "//b", "//a"]
+    lits = ["'10\u00a0000'", "'\u3000a\u3000 b'", "' \u2003 '", "'a\u00a0 \u00a0b'", "'\u0085x\u2028'", "' a  b '", "'\u1680'"]
+    for a in sets + lits:
+        ex.append("normalize-space(%s)" % a)
+        ex.append("string-length(normalize-space(%s))" % a)
+        ex.append("concat('[', normalize-space(%s), ']')" % a)
+        ex.append("normalize-space(%s) = string(%s)" % (a, a))
+        ex.append("number(%s)" % a)
+        ex.append("string-length(%s)" % a)
+        ex.append("translate(%s, '\u00a0\u3000 ', '_=')" % a)
+        ex.append("contains(%s, ' ')" % a)
+        ex.append("boolean(normalize-space(%s))" % a)
+        ex.append("substring-before(normalize-space(%s), ' ')" % a)
+    for e in ("//*[normalize-space() = '']", "//*[normalize-space() = 'a b']", "//*[normalize-space(.) = .]", "//*[normalize-space(@a)]",
+              "//*[not(normalize-space())]", "//text()[normalize-space() != .]", "//@*[normalize-space() = '']",
+              "count(//*[string-length(normalize-space()) = string-length()])", "//*[number() = number()]", "sum(//i)", "//i[. > 0]",
+              "//*[lang('en')]", "//a[normalize-space(@x) = '1\u00a02']", "//a[@x = 3]", "//a[@x > 0]"):
+        ex.append(e)
+    return ex
+
+
 def construct_stream(thorough):
     """structured (not random) expressions: every comparison operator over every pair of operand types, inner `//`
     and every axis under positional predicates, filters over unions"""
@@ -215,6 +252,14 @@ def run_c05(chk):
             cases.append(({"root": ("E", "r", {}, [], []), "heads": [], "tails": [], "dtd": None}, cd, [("lit", q) for q in cex[i:i + 40]]))
             qs.append((cd, XP.BINDINGS, cex[i:i + 40]))
     chk.cov["construct_stream"] = "%d structured expressions x %d documents" % (len(cex), len(CONSTRUCT_DOCS))
+    sx = special_stream()
+    for sd in SPECIAL_DOCS:
+        for i in range(0, len(sx), 40):
+            cases.append(({"root": ("E", "r", {}, [], []), "heads": [], "tails": [], "dtd": None}, sd, [("lit", q) for q in sx[i:i + 40]]))
+            qs.append((sd, XP.BINDINGS, sx[i:i + 40]))
+    chk.cov["special_stream"] = ("%d expressions x %d documents: a namespace-axis step FOLLOWED by further steps from several context "
+                                 "elements; string functions over text with Unicode white space that is not XML white space"
+                                 % (len(sx), len(SPECIAL_DOCS)))
     impl, spec = XP.run_queries("qfresh", qs, quirks="")
     cur = lib.run_lines(lib.model_driver(), [lib.req("queryq", "rz", t, b, *es) for t, b, es in qs], timeout=900)
     ex = Explainer("C05", chk, qs)
